@@ -157,6 +157,9 @@ Module ProdP.
     unfold upd_panic, set_s, set_infl, set_app, set_d, set_t, set_p, set_mark, set_b, set_br, set_misc, done1, fresh_b, tokens;
     unfold inflight, sp, in_closed, ret_closed, err_closed, succ_closed, seen_err, seen_succ, sent, ap, dp, d_hold, shutting, rh, rh_buf, tp, tpq, tpq_closed, t_hold, pp, ppq, ppq_closed, p_hold, ppbuf, pp_ref, p_mark, bp, b_refs, b_in_closed, b_hold, b_buf, b_resp, b_after, br, br_set, out_closed, resp_closed, stop_closed; cbn.
 
+  (* lia on the purely linear part of the context first: every implication in the context doubles lia's case analysis *)
+  Ltac lia0 := solve [ repeat match goal with H : _ -> _ |- _ => clear H end; lia ].
+  Ltac lia2 := first [ lia0 | lia ].
   Ltac go_fin :=
     match goal with I : Inv ?s |- _ =>
       pose_specs s; destr_inv I;
@@ -164,7 +167,7 @@ Module ProdP.
         let Hp := fresh "Hp" in pose proof (b2n_0 _ Hpn) as Hp; try rewrite Hp in * end;
       unfold tokens in *; unacc; rew_eqs s;
       cbn [sM sLate sI sR sE sS s0 dH dDn tH tS tDn tNo pH pSt pNo pAct pLive aW aL aOK bHd bRs bNo bLate bDn bSel brB brDn b2n orb andb] in *;
-      (constructor; red_goal; rew_goal s; red_goal; try lia; bool_goal; bool_hyps; try lia)
+      (constructor; red_goal; rew_goal s; red_goal; try lia2; bool_goal; bool_hyps; try lia2)
     end.
   Ltac go s H I :=
     scbn H; unfold resolve in H; unacc;
